@@ -200,7 +200,8 @@ impl Universal2DBox {
     /// Sets the angle
     ///
     pub fn rotate_mut(&mut self, angle: f32) {
-        self.angle = Some(angle)
+        self.angle = Some(angle);
+        self._vertex_cache = None;
     }
 
     /// Sets the angle
